@@ -14,7 +14,7 @@ use std::net::{IpAddr, Ipv4Addr, Ipv6Addr, SocketAddr, SocketAddrV4, SocketAddrV
 pub(crate) const MIN_LINK_MTU: usize = 1280;
 pub(crate) const MIN_IPV4_HEADER_SIZE: usize = 20;
 pub(crate) const MIN_IPV6_HEADER_SIZE: usize = 40;
-pub(crate) const MAX_IP_PACKET_SIZE: usize = 2_usize.pow(16);
+pub(crate) const MAX_IP_PACKET_SIZE: usize = 2_usize.pow(16) - 1;
 pub(crate) const UDP_HEADER_SIZE: usize = 8;
 /// IPv6 allows sending slightly bigger datagrams, but assume it does not matter
 pub(crate) const MAX_UDP_PAYLOAD_SIZE: usize =
